@@ -254,7 +254,7 @@ func parseMessage(ctx context.Context, msgDesc *desc.MessageDescriptor, cache co
 
 		// add fieldDescriptor to MessageDescriptor
 		// md.ids[FieldNumber(id)] = fieldDesc
-		md.ids.Set(int32(id), unsafe.Pointer(fieldDesc))
+		md.setField(FieldNumber(id), fieldDesc)
 		md.names.Set(name, unsafe.Pointer(fieldDesc))
 		md.names.Set(jsonName, unsafe.Pointer(fieldDesc))
 	}
